@@ -114,7 +114,8 @@ def FnSummary.fits (s : FnSummary) (c : Cls) : Bool := s.comps.length == 7 && fi
 
 /-- THE HAND CLASSIFICATION of the exported Mesh-returning functions of modeling/mesh.go.
     `none`: not modelled as one operation (`Mesh.Transform` applies caller-supplied transformers one after the other:
-    dynamic dispatch; the harness models it as the chain of the operations it applies). -/
+    dynamic dispatch; the harness models it as the chain of the operations it applies; what it dispatches to in /repo — the
+    `Transform` methods of the meshops transformers — IS classified below). -/
 def handClass : String → Option Cls
   | "EmptyMesh" | "EmptyPointcloud" | "NewMesh" | "NewTriangleMesh" | "NewLineStripMesh" | "NewPointCloud" => some .newMesh
   | "Mesh.SetIndices" => some .setIndices
@@ -147,13 +148,29 @@ def handClass : String → Option Cls
   | "meshops.TranslateAttribute3D" | "meshops.VertexColorSpace" => some (.setAttr 2)
   | "meshops.CropFloat3Attribute" | "meshops.FilterFloat1" | "meshops.FilterFloat2" | "meshops.FilterFloat3" | "meshops.FilterFloat4"
   | "meshops.RemovedUnreferencedVertices" | "meshops.Unweld" => some (.rebuild .share)
+  -- modeling/meshops: the `Transform` methods of the transformers (what `Mesh.Transform` dispatches to); the mesh result of the
+  -- success path (on the error path they return the zero Mesh, which shares and allocates nothing)
+  | "meshops.FlipTriangleWindingTransformer.Transform" => some .setIndices
+  | "meshops.NormalizeAttribute2DTransformer.Transform" | "meshops.ScaleAttribute2DTransformer.Transform" => some (.setAttr 1)
+  | "meshops.CenterAttribute3DTransformer.Transform" | "meshops.ColorGradingLutTransformer.Transform"
+  | "meshops.FlatNormalsTransformer.Transform" | "meshops.LaplacianSmoothTransformer.Transform"
+  | "meshops.NormalizeAttribute3DTransformer.Transform" | "meshops.RotateAttribute3DTransformer.Transform"
+  | "meshops.ScaleAttribute3DTransformer.Transform" | "meshops.ScaleAttributeAlongNormalTransformer.Transform"
+  | "meshops.SmoothNormalsImplicitWeldTransformer.Transform" | "meshops.SmoothNormalsTransformer.Transform"
+  | "meshops.TranslateAttribute3DTransformer.Transform" => some (.setAttr 2)
+  | "meshops.CropAttribute3DTransformer.Transform" | "meshops.FilterFloat1Transformer.Transform"
+  | "meshops.FilterFloat2Transformer.Transform" | "meshops.FilterFloat3Transformer.Transform"
+  | "meshops.FilterFloat4Transformer.Transform" | "meshops.RemovedUnreferencedVerticesTransformer.Transform"
+  | "meshops.UnweldTransformer.Transform" => some (.rebuild .share)
   | _ => none
 
 /-- functions that behave as one of TWO classes depending on the input (`RemoveNullFaces3D` returns the mesh passed in when
     there is nothing to remove, else rebuilds; the harness sends `identity` or `rebuild share` accordingly).  The extractor
     joins all return statements, so for these the comparison is per component against the union of the two class summaries. -/
 def handTwoClasses : String → Option (Cls × Cls)
-  | "meshops.RemoveNullFaces3D" => some (.readOnly, .rebuild .share)
+  | "meshops.RemoveNullFaces3D" | "meshops.RemoveNullFaces3DTransformer.Transform" => some (.readOnly, .rebuild .share)
+  -- returns the mesh passed in when the transformation is the identity one
+  | "meshops.VertexColorSpaceTransformer.Transform" => some (.readOnly, .setAttr 2)
   | _ => none
 
 def Comp.union (a b : Comp) : Comp := ⟨a.obj ++ b.obj, a.ent ++ b.ent⟩
@@ -162,7 +179,10 @@ def FnSummary.fitsEither (s : FnSummary) (c d : Cls) : Bool :=
   s.comps.length == 7 && fitsAll s.comps (List.zipWith Comp.union c.spec d.spec)
 
 /-- functions of the regenerated table that are deliberately NOT classified (dynamic dispatch) -/
-def notOneOperation : List String := ["Mesh.Transform"]
+def notOneOperation : List String :=
+  ["Mesh.Transform",                            -- dispatches to caller-supplied transformers, one after the other
+   "meshops.CustomTransformer.Transform",       -- calls a caller-supplied function
+   "meshops.SliceByPlaneTransformer.Transform"] -- picks one of the two results of a two-result function (not summarised)
 
 end MeshClasses
 end PolyVerif
